@@ -37,7 +37,7 @@ Cfg ==
          tyM    |-> {"@", "", "$"},
          aux    |-> { [ty |-> "", e |-> Bin("alt", S(b), S(cc))], [ty |-> "_", e |-> S(b)] },
          ws     |-> {"none"},  cm |-> {"none"},
-         sigma  |-> {97, 98, 99, 233},  len |-> 4]
+         sigma  |-> {97, 98, 99, 233, 224},  len |-> 4]
     [] BaseSlice = "factor" ->
         [leaves |-> {}, unary |-> {}, binary |-> {}, size |-> 1,
          tyM    |-> {"", "_", "@", "$", "!"},
@@ -102,6 +102,13 @@ Cfg ==
          aux    |-> { [ty |-> t, e |-> Bin("seq", S(a), S(b))] : t \in {"", "@", "$", "!"} },
          ws     |-> {"", "_", "@", "$", "!"},  cm |-> {"none", "_", "!", "$"},
          sigma  |-> {97, 98, 32, 35},  len |-> 3]
+    [] BaseSlice = "wsmod" ->   \* every modifier of WHITESPACE and of COMMENT x every kind of body, on two fixed main rules: small
+                                \* enough to be run in full on BOTH back-ends (the large `ws` slice can only be sampled there)
+        [leaves |-> {}, unary |-> {}, binary |-> {}, size |-> 1,
+         tyM    |-> {"", "@"},
+         aux    |-> { [ty |-> "", e |-> Bin("seq", S(a), S(b))] },
+         ws     |-> {"", "_", "@", "$", "!"},  cm |-> {"none", "$", "!", ""},
+         sigma  |-> {97, 98, 32, 35},  len |-> 4]
     [] BaseSlice = "wsref" ->   \* WHITESPACE / COMMENT referred to BY NAME from rules of every modifier (besides being skipped
                                 \* implicitly): what they emit and how their failures are tracked depends on the mode of the caller
         [leaves |-> {S(a), Id("WHITESPACE"), Id("COMMENT")},
@@ -149,15 +156,21 @@ Cfg ==
 AltList(xs) == LET RECURSIVE F(_)
                    F(i) == IF i = Len(xs) THEN xs[i] ELSE Bin("alt", xs[i], F(i + 1))
                IN F(1)
-SkipPool == {S(a), S(ab), S(ac), S(b), S(<<>>), S(eacute), S(ea), Id("r1")}
+SkipPool == {S(a), S(ab), S(ac), S(b), S(<<>>), S(eacute), S(ea), S(<<252>>), Id("r1")}
+\* tail.t = "none": the loop alone; "plus": the one-or-more form of the loop; "star": the one-or-more form inside an outer
+\* repetition (terminates only because the inner loop must consume); otherwise the loop followed by tail
 SkipShape(xs, tail) ==
-  LET core == Un("rep", Bin("seq", Un("not", AltList(xs)), Id("ANY")))
-  IN IF tail.t = "none" THEN core ELSE Bin("seq", core, tail)
+  LET body == Bin("seq", Un("not", AltList(xs)), Id("ANY"))
+      core == Un("rep", body)
+  IN CASE tail.t = "none" -> core
+       [] tail.t = "plus" -> Un("rep1", body)
+       [] tail.t = "star" -> Un("rep", Un("rep1", body))
+       [] OTHER -> Bin("seq", core, tail)
 SkipPool3 == {S(a), S(ac), S(<<>>), Id("r1")}
 \* n = 1, 2: up to n alternatives from the full pool; n = 3: plus three alternatives from the
 \* reduced pool; n >= 4: three alternatives from the full pool
 SkipExprs(n) ==
-  LET Of(k, pool) == { SkipShape(xs, tl) : xs \in [1..k -> pool], tl \in {[t |-> "none"], S(a)} }
+  LET Of(k, pool) == { SkipShape(xs, tl) : xs \in [1..k -> pool], tl \in {[t |-> "none"], S(a), [t |-> "plus"], [t |-> "star"]} }
   IN CASE n <= 2 -> UNION { Of(k, SkipPool) : k \in 1..n }
        [] n = 3  -> Of(1, SkipPool) \cup Of(2, SkipPool) \cup Of(3, SkipPool3)
        [] OTHER  -> UNION { Of(k, SkipPool) : k \in 1..3 }
@@ -224,6 +237,7 @@ Exprs == CASE Slice = "skip"   -> SkipExprs(MaxSize)
            [] BaseSlice = "factor" -> FactorExprs
            [] BaseSlice = "restore" -> RestoreExprs
            [] BaseSlice = "pushws" -> PushWsExprs
+           [] BaseSlice = "wsmod" -> { Bin("seq", S(a), S(b)), Un("rep", Id("r1")) }
            [] OTHER -> UNION { ExprsOfSize(n) : n \in 1..MaxSize }
 
 \* WHITESPACE / COMMENT bodies: a literal, or (wb = "rule") a call of a non-silent helper rule, which
@@ -231,13 +245,15 @@ Exprs == CASE Slice = "skip"   -> SkipExprs(MaxSize)
 \* wb = "ov": COMMENT = " #" | "##" and WHITESPACE = " " | "#" overlap on their first characters
 \* wb = "seq": bodies that are sequences / repetitions starting with something that can match empty - the places
 \* where an implementation that did NOT make the body atomic would skip implicitly inside the skip rule itself
-WsRule(ty, wb) == [ty |-> ty, e |-> CASE wb = "rule" -> Id("w1") [] wb = "ov" -> Bin("alt", S(sp), S(hash))
+\* wb = "ruleseq": as "rule", but the helper rules are themselves sequences / repetitions with a head that can match
+\* empty: a skip rule's helpers run atomically too, so nothing is skipped inside them
+WsRule(ty, wb) == [ty |-> ty, e |-> CASE wb \in {"rule", "ruleseq"} -> Id("w1") [] wb = "ov" -> Bin("alt", S(sp), S(hash))
                                       [] wb = "seq" -> Bin("seq", Un("opt", S(hash)), S(sp)) [] OTHER -> S(sp)]
-CmRule(ty, wb) == [ty |-> ty, e |-> CASE wb = "rule" -> Bin("seq", S(hash), Un("opt", Id("w2")))
+CmRule(ty, wb) == [ty |-> ty, e |-> CASE wb \in {"rule", "ruleseq"} -> Bin("seq", S(hash), Un("opt", Id("w2")))
                                       [] wb = "ov" -> Bin("alt", S(<<32, 35>>), S(<<35, 35>>))
                                       [] wb = "seq" -> Bin("seq", Un("rep", S(a)), S(hash))
                                       [] OTHER -> S(hash)]
-WBodies == CASE BaseSlice = "ws" -> {"lit", "rule", "seq"} [] BaseSlice = "wsov" -> {"ov"} [] BaseSlice = "wsref" -> {"lit", "rule"} [] OTHER -> {"lit"}
+WBodies == CASE BaseSlice \in {"ws", "wsmod"} -> {"lit", "rule", "seq", "ruleseq"} [] BaseSlice = "wsov" -> {"ov"} [] BaseSlice = "wsref" -> {"lit", "rule"} [] OTHER -> {"lit"}
 
 Grammars ==
   { [m |-> [ty |-> tm, e |-> e], r1 |-> aux, ws |-> w, cm |-> c, wb |-> wb] :
@@ -250,7 +266,10 @@ Shadows == [ASCII_DIGIT |-> [ty |-> "", e |-> S(<<113>>)],          \* ASCII_DIG
             LETTER      |-> [ty |-> "", e |-> S(<<49>>)]]
 GOf(x) ==
   LET base == IF BaseSlice = "shadow" THEN [m |-> x.m, r1 |-> x.r1] @@ Shadows ELSE [m |-> x.m, r1 |-> x.r1]
-      h    == IF x.wb = "rule" THEN base @@ [w1 |-> [ty |-> "", e |-> S(sp)], w2 |-> [ty |-> "", e |-> S(a)]] ELSE base
+      h    == CASE x.wb = "rule" -> base @@ [w1 |-> [ty |-> "", e |-> S(sp)], w2 |-> [ty |-> "", e |-> S(a)]]
+                [] x.wb = "ruleseq" -> base @@ [w1 |-> [ty |-> "", e |-> Bin("seq", Un("opt", S(hash)), S(sp))],
+                                                w2 |-> [ty |-> "", e |-> Bin("seq", Un("rep", S(a)), S(b))]]
+                [] OTHER -> base
       w    == IF x.ws = "none" THEN h ELSE h @@ [WHITESPACE |-> WsRule(x.ws, x.wb)]
   IN IF x.cm = "none" THEN w ELSE w @@ [COMMENT |-> CmRule(x.cm, x.wb)]
 
